@@ -1,0 +1,49 @@
+//go:build verif
+
+// Verification hook for property C14 (/verif): add-only accessors for the unexported cluster
+// de-duplication functions. No behaviour change; the file vanishes without the `verif` build tag.
+// (dedupeDomains / generateVirtualHostDomains are exposed by zz_verif_c12.go.)
+
+package core
+
+import (
+	"strconv"
+
+	cluster "github.com/envoyproxy/go-control-plane/envoy/config/cluster/v3"
+	discovery "github.com/envoyproxy/go-control-plane/envoy/service/discovery/v3"
+
+	"istio.io/istio/pilot/pkg/model"
+)
+
+func verifC14Builder() *ClusterBuilder {
+	return &ClusterBuilder{req: &model.PushRequest{Push: model.NewPushContext()}, proxyID: "verif-c14"}
+}
+
+// VerifC14NormalizeClusters runs normalizeClusters on clusters carrying the given names; the i-th
+// input cluster is marked with AltStatName = i, and the result lists "<name>#<i>" of the kept ones.
+func VerifC14NormalizeClusters(names []string) []string {
+	in := make([]*cluster.Cluster, 0, len(names))
+	for i, n := range names {
+		in = append(in, &cluster.Cluster{Name: n, AltStatName: strconv.Itoa(i)})
+	}
+	out := verifC14Builder().normalizeClusters(in)
+	res := make([]string, 0, len(out))
+	for _, c := range out {
+		res = append(res, c.Name+"#"+c.AltStatName)
+	}
+	return res
+}
+
+// VerifC14NormalizeClusterResources runs normalizeClusterResources the same way (marker = Version).
+func VerifC14NormalizeClusterResources(names []string) []string {
+	in := make(model.Resources, 0, len(names))
+	for i, n := range names {
+		in = append(in, &discovery.Resource{Name: n, Version: strconv.Itoa(i)})
+	}
+	out := verifC14Builder().normalizeClusterResources(in)
+	res := make([]string, 0, len(out))
+	for _, r := range out {
+		res = append(res, r.Name+"#"+r.Version)
+	}
+	return res
+}
